@@ -127,3 +127,10 @@ CLAIMED["C07"] = (
     _TRUST + " The response grammar as implemented in vf/wire.py.",
     "DESIGN.md section 4 C07",
 )
+CLAIMED["C10"] = (
+    "exploration",
+    "property-based testing with a harness-owned scheduler: Hypothesis generates (commands per session, arrival offsets, a list of latency choices for every DB completion and executor job) jointly and shrinks the schedule towards FIFO; oracle = pure sequential reference model + depth-first search for a session-order-respecting interleaving (COPY = read+add, MOVE = read+add+remove) that reproduces every observed outcome and the final mailbox contents; liveness bound in virtual time",
+    "2-3 sessions issue 1-3 commands each concurrently on two mailboxes under generated I/O-completion interleavings; every command must be answered within 100 virtual seconds (no quiescent loop, no spin, no watchdog), and outcomes plus final state must be explained by some sequential order evaluated by a model that knows sequence-number semantics, pending-EXPUNGE refusals and MOVE's delivery rules. A liveness profile adds CLOSE, DELETE/RENAME with queued commands and POP3 QUIT.",
+    _TRUST + " Interleavings are those observable on one cooperative event loop (4-value latency alphabet); session order (sequential consistency) as the property states, not cross-session real-time order.",
+    "DESIGN.md section 4 C10",
+)
